@@ -1,6 +1,8 @@
 import PycModel.Spec.Brackets
 import PycModel.Properties.C06
 import PycModel.Proofs.StreamRel
+import PycModel.Proofs.RegexCost
+import PycModel.Generated.LexTables
 /-!
 # C18 — structurally malformed input is always rejected
 
@@ -141,5 +143,12 @@ theorem lex_error_rejects (fuel : Nat) (pre post : List PycModel.SEv) (v : PycMo
         simp at he
         exact ih ds x y (fun e h' => ha e (by simp [h'])) (fun e h' => hb e (by simp [h'])) (by simpa using he.2) hy
   exact key pre t post r hpre ht e hr
+
+/-- obligation on the regenerated lexer: the two patterns that decide whether a `#` line is a
+supported directive are exactly `[ \t]*pragma\W` and `([ \t]*line\W)|([ \t]*\d+)` - a directive
+whose name merely starts with `pragma` or `line` is not dispatched to their handlers -/
+theorem impl_directive_patterns :
+    reEq Generated.pragmaPat expectedPragmaPat = true ∧ reEq Generated.linePat expectedLinePat = true := by
+  decide
 
 end PycModel.C18
